@@ -53,6 +53,8 @@ def gen(tier):
         for cb in (1, 2):
             for y in PB_Q[:2]:
                 for fk in MUT_2: one([(A, "ADD", 3)] + y, (A, fk), cb)
+            # two-chain source: remove_buffer lengths that end on the chain boundary relink whole chains into the destination
+            one([(A, "ADD", 3)] + PB_Q[2], (A, "REMOVEBUF"), cb)
     else:
         for cb in (1, 2, 3):
             for pre in PRE_T + (TOGGLE if cb == 1 else []):
